@@ -436,10 +436,51 @@ def r7_paths_written(ctx, rule):
         ctx.ok(rule, 'Rules/<name>', 'all %d distinct files the loaders open are written by the trainer' % n)
 
 
+def r10_loader_complete(ctx, rule):
+    """The guesser's terminal loader turns every well-formed line into a value: the only skips are its error recovery."""
+    q = GIO + '_load_from_file'
+    fn = ctx.fn(q)
+    mod = ctx.repo.modules[q.partition('::')[0]]
+    loops = [n for n in walk_local(fn) if isinstance(n, ast.For)]
+    if not loops:
+        ctx.unk(rule, q, 'line loop not found')
+        return
+    lp = loops[0]
+    bad = False
+    n = 0
+    for st in walk_stmts(lp.body):
+        if isinstance(st, (ast.Continue, ast.Break, ast.Return)):
+            n += 1
+            in_handler = any(isinstance(a, ast.ExceptHandler) for a in enclosing_stmt_chain(mod, st))
+            conds = [(U(t), p_) for t, p_ in path_conditions(mod, st, stop=lp)]
+            ok_skip = in_handler or conds == [('error_flag', True)]
+            if not ok_skip or isinstance(st, (ast.Break, ast.Return)):
+                bad = True
+                ctx.bad(rule, q, 'loader skips lines under %s' % (conds or U(st)),
+                        'every line of a terminal file is a value of the grammar; a loader that drops lines by their content '
+                        "(blank, starting with '#', ...) silently removes terminals - and whole probability groups - that the "
+                        'trainer wrote', None, st)
+    if ctx.floor(rule, q, n, 3, 'skip statements in the terminal loader') and not bad:
+        ctx.ok(rule, q, 'the only skipped lines are the error-recovery cases (undecodable line, unparsable record, line after one)')
+
+
+def guesser_loads_faithfully(prefix):
+    """Rule bundle: the guesser reads the PCFG part of a ruleset exactly as written (shared by C02/C03/C04/C17)."""
+    readers = (GIO + '_load_from_file', GIO + '_load_base_structures')
+    return [
+        (prefix + 'a', lambda c, r: r3_record_layout(c, r, scope='pcfg')),
+        (prefix + 'b', lambda c, r: r5_strip_discipline(c, r, only=readers, floor=2)),
+        (prefix + 'c', lambda c, r: r2_encoding_agreement(c, r, entries=(['pcfg_guesser.py', 'prince_ling.py'],),
+                                                         file_filter=lambda fid: fid[0] not in ('Omen', 'Emails', 'Websites'), floor=8)),
+        (prefix + 'd', r10_loader_complete),
+    ]
+
+
 def rules(tier):
     return [('C07.R1', r1_separator_inclusion), ('C07.R2', lambda c, r: r2_encoding_agreement(c, r)),
             ('C07.R3', r3_record_layout), ('C07.R5', r5_strip_discipline), ('C07.R6', r6_wipe_before_write),
-            ('C07.R7', r7_paths_written), ('C07.R8', c04.r5_grouping_kernel), ('C07.R9', lambda c, r: c03.r1_tag_chain(c, r, scope='disk'))]
+            ('C07.R7', r7_paths_written), ('C07.R8', c04.r5_grouping_kernel), ('C07.R9', lambda c, r: c03.r1_tag_chain(c, r, scope='disk')),
+            ('C07.R10', r10_loader_complete)]
 
 
 META = {
